@@ -3,6 +3,7 @@ CONSTANTS
   OracleN = 0
   Starts = {"k4"}
   GlueK5 = FALSE
+  CrossEdge = FALSE
   Randomised = TRUE
 INIT Init
 NEXT Next
